@@ -266,6 +266,7 @@ class Cleanup:
         result = []
         previous_token = INDENT
         (previous_end_row, previous_end_col) = (-1, 0)
+        line_is_open = False
         text = str(source)
         text = Cleanup.suppress_first_comments(text)
         text = Cleanup.suppress_main_guard(text)
@@ -277,6 +278,8 @@ class Cleanup:
             (token, string, (start_row, start_col), (end_row, end_col), _) = token_info
             if start_row > previous_end_row:
                 previous_end_col = 0
+                if line_is_open:  # explicit line joining (backslash): keep the two tokens apart
+                    result.append(" ")
             result.append(" " * max(0, start_col - previous_end_col))
             if token == COMMENT:
                 (string, n) = Cleanup.normalize_paroxython_comments(string)
@@ -297,6 +300,7 @@ class Cleanup:
             if not (token in (NL, COMMENT) and previous_token in (INDENT, DEDENT, NEWLINE)):
                 previous_token = token
             (previous_end_row, previous_end_col) = (end_row, end_col)
+            line_is_open = token not in (NEWLINE, NL)
         text = "".join(result).strip()
         text = Cleanup.suppress_blank_lines(text)
         text = Cleanup.suppress_useless_pass_statements(text)
